@@ -44,6 +44,7 @@ QUICK = [
     _c('uncoupled_dst_day_split_by_day', 'uncoupled', dict(T=4, freq=('8h', '2021-03-28 00:00', '2021-03-29 09:00', 'CET'), wacc=True), 'd'),
     _c('uncoupled_month_boundary', 'uncoupled', dict(T=4, freq=('d', '2021-01-30', '2021-02-03', None), unit='d', wacc=True), 'MS'),
     _c('storage_start_eq_end', 'contract_storage', dict(T=4, freq='12h', storage_kw=dict(start_eq_end=True)), 'd', True),
+    _c('storage_no_simult_window', 'contract_storage', dict(T=4, freq='12h', win_s=(0, 4), win_c=(1, 4), storage_kw=dict(start_eq_end=True, no_simult_in_out=True)), 'd', True),
     _c('two_node_storage_wacc', 'two_node', dict(T=4, freq='12h', wacc=True, storage_kw=dict(start_eq_end=True)), 'd', True),
 ]
 THOROUGH = QUICK + [
